@@ -3,10 +3,12 @@
   request : `xform <name> <params> <schemas>`      one transformation
             `xform seq ((<name> <params>) …) <schemas>`   a configuration file with several
             `xform str <fn> "<s>" ["<t>"]`         string helpers (eqfold, trim, ucc, objref, fieldref)
+            `xform witness <i>`                    i-th counterexample witness: `<theorem> <quirk> <request>` | `end`
   reply   : `ok <schemas>` | `err` | `panic`   (nil-`Hints` marks are not printed)
 -/
 import Cog.IR.Vir
 import Cog.Xform.Yaml
+import Cog.Xform.Witness
 namespace Cog.Drv
 open Cog Cog.IR Cog.Xform
 
@@ -98,12 +100,60 @@ def strFn : List Sexp → String
     | none => "err"
   | _ => "bad-request"
 
+/-! printing a step back as request text (for the witnesses) -/
+
+def orefOut (r : ObjRef) : Sexp := .str (r.pkg ++ "." ++ r.obj)
+def frefOut (r : FieldRef) : Sexp := .str (r.pkg ++ "." ++ r.obj ++ "." ++ r.field)
+def kv (k : String) (vs : List Sexp) : Sexp := .list (.atom k :: vs)
+def fieldOut (f : Field) : Sexp :=
+  .list [.atom "f", .str f.name, Vir.tyOut f.ty, Vir.b2s f.required, .list (.atom "c" :: f.comments.map .str)]
+def commentsOut : Option (List String) → List Sexp
+  | none => []
+  | some cs => [kv "comments" (cs.map .str)]
+
+def stepOut : Xf → String × List Sexp
+  | .renameObject p => ("rename_object", [kv "from" [orefOut p.from_], kv "to" [.str p.to]])
+  | .omit p => ("omit", [kv "objects" (p.objects.map orefOut)])
+  | .omitFields p => ("omit_fields", [kv "fields" (p.fields.map frefOut)])
+  | .addFields p => ("add_fields", [kv "to" [orefOut p.to], kv "fields" (p.fields.map fieldOut)])
+  | .addObject p => ("add_object", [kv "object" [orefOut p.object], kv "as" [Vir.tyOut p.as_]] ++
+      (if p.comments.isEmpty then [] else [kv "comments" (p.comments.map .str)]))
+  | .duplicateObject p => ("duplicate_object", [kv "object" [orefOut p.object], kv "as" [orefOut p.as_]] ++
+      (if p.omitFields.isEmpty then [] else [kv "omit_fields" (p.omitFields.map .str)]))
+  | .retypeObject p => ("retype_object", [kv "object" [orefOut p.object], kv "as" [Vir.tyOut p.as_]] ++ commentsOut p.comments)
+  | .retypeField p => ("retype_field", [kv "field" [frefOut p.field], kv "as" [Vir.tyOut p.as_]] ++ commentsOut p.comments)
+  | .fieldsSetRequired p => ("fields_set_required", [kv "fields" (p.fields.map frefOut)])
+  | .fieldsSetNotRequired p => ("fields_set_not_required", [kv "fields" (p.fields.map frefOut)])
+  | .fieldsSetDefault p => ("fields_set_default", [kv "defaults" (p.defaults.map fun e => .list [frefOut e.1, Vir.valOut e.2])])
+  | .replaceReference p => ("replace_reference", [kv "from" [orefOut p.from_], kv "to" [orefOut p.to]])
+  | .constantToEnum p => ("constant_to_enum", [kv "objects" (p.objects.map orefOut)])
+  | .trimEnumValues => ("trim_enum_values", [])
+  | .hintObject p => ("hint_object", [kv "object" [orefOut p.object], kv "hints" (p.hints.map fun e => .list [.str e.1, Vir.valOut e.2])])
+  | .schemaSetIdentifier p => ("schema_set_identifier", [kv "package" [.str p.pkg], kv "identifier" [.str p.identifier]])
+  | .schemaSetEntryPoint p => ("schema_set_entry_point", [kv "package" [.str p.pkg], kv "entry_point" [.str p.entryPoint]])
+  | .prefixObjectNames p => ("prefix", [kv "prefix" [.str p.pfx]])
+  | .appendCommentObjects p => ("append_comment", [kv "comment" [.str p.comment]])
+  | .unspec => ("unspec", [])
+
+def witnessLine (w : Witness) : String :=
+  let head := w.theorem_ ++ " " ++ w.quirk ++ " xform "
+  let body := match w.steps with
+    | [t] => let (name, ps) := stepOut t; name ++ " " ++ (Sexp.list ps).render
+    | ts => "seq " ++ (Sexp.list (ts.map fun t => let (name, ps) := stepOut t; .list [.atom name, .list ps])).render
+  head ++ body ++ " " ++ (Vir.schemasOut w.schemas).render
+
 end XformDrv
 
 open XformDrv in
 def xformLine (rest : String) : String :=
   match Sexp.parseMany rest with
   | some (.atom "str" :: args) => strFn args
+  | some [.atom "witness", .atom n] =>
+    match n.toNat? with
+    | some i => match witnesses[i]? with
+      | some w => witnessLine w
+      | none => "end"
+    | none => "bad-request"
   | some [.atom "seq", .list xs, ss] =>
     match rawSeqIn xs, Vir.schemasIn ss with
     | some raw, some S => reply (loadAndProcess raw S)
